@@ -129,7 +129,7 @@ func closedPipe(e *env) error {
 	os.MkdirAll(dir, 0o755)
 	writeFile(dir+"/food.yaml", fixedBook)
 	writeFile(dir+"/log.yaml", longLog(200))
-	for _, args := range crashShapes {
+	for _, args := range append(append([][]string{}, crashShapes...), []string{"gen", "man"}, []string{"gen", "markdown"}) {
 		ok := runBinary(dir, nil, nil, args...)
 		e.sum.Runs++
 		if ok.Exit != 0 || len(ok.Stdout) == 0 {
